@@ -135,6 +135,83 @@ class _GuardModel:
             except CannotEval:
                 pass
         self.selfrec = Record(**fields)
+        self.fill = None  # content of the descriptive fields of the abstract exception (None = the neutral default)
+        self.tparam, self.ops, self.generic_op = None, {}, None
+
+    # -- the operation handed to the guard ------------------------------------------------------------------------------------------------------------
+    @staticmethod
+    def op_record(name):
+        last = name.split(".")[-1]
+        return Record(__name__=last, __qualname__=last, __module__=".".join(name.split(".")[:-1]) or "builtins")
+
+    def bind_operations(self, tparam, targets):
+        """The target parameter of the guard is bound to a value that stands for the operation: every dotted target expression that a method of the store client hands to the guard
+        (`self.<raw>.indices.refresh`, `elasticsearch.helpers.bulk`, ...) evaluates, inside the guard, to the SAME value as the parameter does when that operation is guarded
+        (so `target is elasticsearch.helpers.bulk`, `target == self._client.search`, `target.__name__ == "bulk"` are all decided); by default the parameter holds an operation
+        that is none of them (a local function, as in the unit tests)."""
+        self.tparam = tparam
+        self.generic_op = self.op_record("tests.operation")
+        tree = {}
+        for d in targets:
+            parts = d.split(".")
+            node, ok = tree, True
+            for q in parts[:-1]:
+                nxt = node.setdefault(q, {})
+                if not isinstance(nxt, dict):
+                    ok = False
+                    break
+                node = nxt
+            if not ok or isinstance(node.get(parts[-1]), dict) or len(parts) < 2:
+                continue
+            rec = node.get(parts[-1]) or self.op_record(d)
+            node[parts[-1]] = rec
+            self.ops[d] = rec
+
+        def conv(x):
+            return Record(**{k: conv(v) for k, v in x.items()}) if isinstance(x, dict) else x
+
+        for root, sub in tree.items():
+            if not isinstance(sub, dict):
+                continue
+            if root == "self":
+                self.selfrec = Record(**{**conv(sub).fields, **self.selfrec.fields})
+            elif root not in self.genv:
+                self.genv[root] = conv(sub)
+
+    def probe_strings(self):
+        """the strings that the guard (with its helpers) compares something against: constants inside comparisons / inside the arguments of string tests, module constants and literal
+        attributes of the store client read there. They are the representative contents for the descriptive fields of an exception (the neutral default is none of them)."""
+        out = []
+
+        def take(v, depth=0):
+            if isinstance(v, str) and v and v not in out:
+                out.append(v)
+            elif isinstance(v, (list, tuple, set, frozenset)) and depth < 2:
+                for x in v:
+                    take(x, depth + 1)
+            elif isinstance(v, dict) and depth < 2:
+                for x in v:
+                    take(x, depth + 1)
+
+        for f in self.closure():
+            for n in walk_body(f):
+                if isinstance(n, ast.Compare):
+                    scope = [n]
+                elif isinstance(n, ast.Call) and isinstance(n.func, ast.Attribute) and n.func.attr in ("startswith", "endswith", "find", "index", "count", "match", "search", "fullmatch", "get"):
+                    scope = list(n.args)
+                elif isinstance(n, getattr(ast, "match_case", ())):
+                    scope = [n.pattern]
+                else:
+                    continue
+                for sc in scope:
+                    for x in ast.walk(sc):
+                        if isinstance(x, ast.Constant):
+                            take(x.value)
+                        elif isinstance(x, ast.Name) and x.id in self.genv:
+                            take(self.genv[x.id])
+                        elif isinstance(x, ast.Attribute) and is_self_attr(x) and x.attr in self.selfrec.fields:
+                            take(self.selfrec.fields[x.attr])
+        return out[:8]
 
     # -- helpers ----------------------------------------------------------------------------------------------------------------------------------
     def helper_of(self, c):
@@ -173,6 +250,8 @@ class _GuardModel:
     def base_env(self):
         env = dict(self.genv)
         env["self"] = self.selfrec
+        if self.tparam is not None:
+            env[self.tparam] = self.generic_op
         return env
 
     # -- values -----------------------------------------------------------------------------------------------------------------------------------
@@ -306,18 +385,22 @@ class _GuardModel:
 
     # -- the abstract exception -------------------------------------------------------------------------------------------------------------------------
     @staticmethod
-    def exc_record(status):
+    def exc_record(status, fill=None):
+        """fill: the content of the descriptive fields (error type / reason / message / error body) - None = a neutral default."""
         if isinstance(status, tuple):
             # ("item", status | [statuses]) or ("item", status, action): the library reports a failed item under the name of the bulk action the document was sent with
             items = status[1] if isinstance(status[1], list) else [status[1]]
             action = status[2] if len(status) > 2 else "index"
             errs = []
             for i, st in enumerate(items):
-                d = {"_index": "rally-metrics", "_id": str(i), "error": {"type": "some_exception", "reason": "some reason"}}
+                d = {"_index": "rally-metrics", "_id": str(i), "error": {"type": fill or "some_exception", "reason": fill or "some reason"}}
                 if st is not None:
                     d["status"] = st
                 errs.append({action: d})
             return Record(errors=errs, message=f"{len(errs)} document(s) failed to index.", args=(f"{len(errs)} document(s) failed to index.", errs))
+        if fill is not None:
+            info = {"error": {"type": fill, "reason": fill, "root_cause": [{"type": fill, "reason": fill}]}, "status": status}
+            return Record(status_code=status, meta=Record(status=status), status=status, error=fill, message=fill, errors=(), info=info, body=info)
         return Record(status_code=status, meta=Record(status=status), status=status, error="some_error", message="some message", errors=(), info={}, body={})
 
     def after_try(self):
@@ -333,7 +416,7 @@ class _GuardModel:
         rest of the loop body; .sleeps = the durations slept, by value."""
         self.sleeps = []
         if h.name:
-            env[h.name] = self.exc_record(status)
+            env[h.name] = self.exc_record(status, self.fill)
         try:
             out = decide(h.body, self.atom, env, on_stmt=self.on_stmt)
             rest = self.after_try()
@@ -758,6 +841,16 @@ def run(chk):
         raise AnchorMissing("retry loop in EsClient.guarded: the call of the target is not inside a try inside a loop")
     call0, (T, L) = anchored[0]
     model = _GuardModel(met, EC, gd, L, T)
+    # the store operations = the targets that the methods of the store client hand to the guard (positionally or under the parameter's name)
+    op_sites = {}
+    for name_, f_ in em.items():
+        for c_ in source.calls_in(f_):
+            if u(c_.func) == f"self.{gd.name}":
+                t_ = c_.args[0] if c_.args and not isinstance(c_.args[0], ast.Starred) else next((k.value for k in c_.keywords if k.arg == tparam), None)
+                d_ = dotted(t_) if t_ is not None else None
+                if d_ and "." in d_:
+                    op_sites.setdefault(d_, (name_, c_))
+    model.bind_operations(tparam, list(op_sites))
     # the raw client = the attribute(s) of the store client bound to the first constructor argument
     init = em.get("__init__")
     raw_attrs = set()
@@ -1317,6 +1410,86 @@ def run(chk):
             ok = isinstance(n.right, ast.Tuple) and len(n.right.elts) == nph and not any(isinstance(e_, ast.Starred) for e_ in n.right.elts)
             chk.ob("O17.4", f"message at line {n.lineno}: {nph} placeholder(s) filled from a tuple literal of the same length", ok, n, f"right operand: {short(n.right, 70)}",
                    key=f"{_M}:EsClient.guarded:format:{ltxt[:40]}")
+    # ---- O17.8 the classification depends on the fault class and the budget only ------------------------------------------------------------------------------
+    chk.rule("O17.8", "the decision of the guard for an outcome class (retry with this pause / raise this Rally error) is a function of the fault class and the remaining budget ONLY: "
+             "(a) for each store operation - every target that a method of the store client hands to the guard, bound to the guard's target parameter so that tests on the "
+             "target's identity / name are decided - and (b) for each content of the descriptive fields of the exception (error type, reason, message, error body: probed with every "
+             "string that the guard or its helpers compare against, plus a neutral one), every class of the O17.4 table gets, in the first attempt, in the last retry and with the "
+             "budget exhausted, exactly the decision that the guard takes for an anonymous operation and a neutral exception (the one O17.4 / O17.3 hold against the property)", 12,
+             "one operation (e.g. the bulk write path) is not retried on one transient class, or an authorization / API error with a particular reason is retried instead of surfacing")
+
+    def decision(o):
+        if retries(o):
+            return ("retry", None, tuple(o.sleeps))
+        if o.kind == "raise":
+            return ("raise", raised_class(o)[1], tuple(o.sleeps))
+        return (o.kind, None, tuple(o.sleeps))
+
+    def say(d_):
+        return (f"retry after sleeping {list(d_[2])}" if d_[2] else "retry WITHOUT sleeping") if d_[0] == "retry" else (f"raise {d_[1]}" if d_[0] == "raise" else d_[0]) + (f" after sleeping {list(d_[2])}" if d_[2] else "")
+
+    attempts_probed = [c for c in (1, 10, 11) if len(states) >= c]
+    table = [(label, status, select(cls)[0]) for label, cls, status, kind in CASES]
+    table = [(label, status, h) for label, status, h in table if h is not None]
+
+    def decisions(env_patch, fill):
+        """{(label, attempt): decision} with the loop state patched by env_patch and the exception filled with `fill`."""
+        out = {}
+        model.fill = fill
+        try:
+            for label, status, h in table:
+                for c in attempts_probed:
+                    env = dict(states[c - 1])
+                    env.update(env_patch)
+                    out[(label, c)] = decision(model.interpret(h, status, env))
+        finally:
+            model.fill = None
+        return out
+
+    base = None
+    if table and attempts_probed:
+        try:
+            base = decisions({}, None)
+        except SIM_ERR as x:
+            chk.unknown("O17.8", f"the decision table of the guard for an anonymous operation is not decided: {x}", T)
+    if base is not None:
+        def compare(got):
+            return [f"{label}, attempt {c}: {say(got[(label, c)])} (any other operation / a neutral exception: {say(base[(label, c)])})" for (label, c) in base if got[(label, c)] != base[(label, c)]]
+
+        # (a) for each store operation
+        for d_, (mname, site) in op_sites.items():
+            if d_ not in model.ops:
+                chk.unknown("O17.8", f"EsClient.{mname}: the guarded target `{d_}` is not bound to a value of its own", site)
+                continue
+            try:
+                diff = compare(decisions({tparam: model.ops[d_]}, None))
+            except SIM_ERR as x:
+                chk.unknown("O17.8", f"EsClient.{mname}: the decision table of the guard for the operation `{d_}` is not decided: {x}", site)
+                continue
+            chk.ob("O17.8", f"EsClient.{mname} (`{d_}`): same decisions as for any other operation", not diff, site,
+                   f"{len(table)} classes x attempts {attempts_probed}" if not diff else f"{len(diff)} decision(s) differ for this operation: " + "; ".join(diff[:2]),
+                   key=f"{_M}:EsClient.guarded:operation:{mname}")
+        # (b) for each content of the descriptive fields of the exception
+        probes = model.probe_strings() + ["neutral_exception"]
+        per_label = {label: [] for label, _, _ in table}
+        failed = None
+        for fl_ in probes:
+            try:
+                got = decisions({}, fl_)
+            except SIM_ERR as x:
+                failed = (fl_, x)
+                break
+            for (label, c) in base:
+                if got[(label, c)] != base[(label, c)]:
+                    per_label[label].append(f"with error type / reason / message == {fl_!r}, attempt {c}: {say(got[(label, c)])} (otherwise: {say(base[(label, c)])})")
+        if failed is not None:
+            chk.unknown("O17.8", f"the decision table of the guard for an exception that carries {failed[0]!r} is not decided: {failed[1]}", T)
+        else:
+            for label, status, h in table:
+                bad = per_label[label]
+                chk.ob("O17.8", f"{label}: same decision whatever the exception says (error type / reason / message probed with {len(probes)} string(s))", not bad, h,
+                       f"probes: {probes}"[:110] if not bad else "; ".join(bad[:2]), key=f"{_M}:EsClient.guarded:content:{label}")
+
     # dead arms must agree with their shadow
     for i, (h, names) in enumerate(handlers):
         shadows = [hh for hh, pn in handlers[:i] if all(H.catches(pn, nm) for nm in names)] if i else []
@@ -2002,6 +2175,23 @@ _INDEX_DOC = "    def index(self, index, item, id=None):\n        doc = {\"_sour
 _STATUS_TEST = ("        if not (method == \"HEAD\" and meta.status == 404) and (\n            not 200 <= meta.status < 299\n"
                 "            and (self._ignore_status is DEFAULT or self._ignore_status is None or meta.status not in self._ignore_status)\n        ):\n")
 VARIANTS = [
+    # O17.8: the decision depends on the fault class and the budget only (per store operation / per content of the exception)
+    V("timeouts of the bulk operation are not retried (C17-m18)", "break", _M, "            except elasticsearch.exceptions.ConnectionTimeout as e:\n                if execution_count <= max_execution_count:",
+      "            except elasticsearch.exceptions.ConnectionTimeout as e:\n                if execution_count <= max_execution_count and target is not elasticsearch.helpers.bulk:", "O17.8"),
+    V("connection errors of refresh (tested by the target's name) are not retried", "break", _M, "            except elasticsearch.exceptions.ConnectionError as e:\n                if execution_count <= max_execution_count:",
+      "            except elasticsearch.exceptions.ConnectionError as e:\n                if execution_count <= max_execution_count and target.__name__ != \"refresh\":", "O17.8"),
+    V("search retries a 404 (operation compared with the raw client's method)", "break", _M, "                if e.status_code in self.retryable_status_codes and execution_count <= max_execution_count:",
+      "                if (e.status_code in self.retryable_status_codes or (target == self._client.search and e.status_code == 404)) and execution_count <= max_execution_count:", "O17.8"),
+    V("a 403 with the reason cluster_block_exception is retried (C17-m17)", "break", _M, "            except elasticsearch.exceptions.AuthorizationException:\n                node = self._client.transport.node_pool.get()",
+      "            except elasticsearch.exceptions.AuthorizationException as e:\n                if e.error == \"cluster_block_exception\" and execution_count <= max_execution_count:\n                    time.sleep(time_to_sleep)\n                    continue\n                node = self._client.transport.node_pool.get()", "O17.8"),
+    V("an API error whose message mentions a circuit breaker is retried whatever its status", "break", _M, "                if e.status_code in self.retryable_status_codes and execution_count <= max_execution_count:",
+      "                if (e.status_code in self.retryable_status_codes or \"circuit_breaking_exception\" in e.message) and execution_count <= max_execution_count:", "O17.8"),
+    V("a bulk item rejected with a version conflict is retried", "break", _M, "                    if err.get(\"index\", {}).get(\"status\", None) not in self.retryable_status_codes:",
+      "                    if err.get(\"index\", {}).get(\"status\", None) not in self.retryable_status_codes and err_type != \"version_conflict_engine_exception\":", "O17.8"),
+    V("the timeout arm only LOGS which operation timed out", "keep", _M, "            except elasticsearch.exceptions.ConnectionTimeout as e:\n                if execution_count <= max_execution_count:",
+      "            except elasticsearch.exceptions.ConnectionTimeout as e:\n                if target is elasticsearch.helpers.bulk:\n                    self.logger.debug(\"bulk request timed out\")\n                if execution_count <= max_execution_count:", "O17.8"),
+    V("the authorization arm only LOGS a write block", "keep", _M, "            except elasticsearch.exceptions.AuthorizationException:\n                node = self._client.transport.node_pool.get()",
+      "            except elasticsearch.exceptions.AuthorizationException as e:\n                if e.error == \"cluster_block_exception\":\n                    self.logger.warning(\"write block\")\n                node = self._client.transport.node_pool.get()", "O17.8"),
     V("search called directly", "break", _M, "        return self.guarded(self._client.search, index=index, body=body)", "        return self._client.search(index=index, body=body)", "O17.1"),
     V("second target call after the loop", "break", _M, "                self.logger.exception(msg)\n                # this does not necessarily mean it's a system setup problem...\n                raise exceptions.RallyError(msg)\n\n\nclass EsClientFactory",
       "                self.logger.exception(msg)\n                # this does not necessarily mean it's a system setup problem...\n                raise exceptions.RallyError(msg)\n        return target(*args, **kwargs)\n\n\nclass EsClientFactory", "O17."),
